@@ -4,8 +4,9 @@ _MODES = [("mldsa44", "./sign/mldsa/mldsa44"), ("mldsa65", "./sign/mldsa/mldsa65
           ("mode2", "./sign/dilithium/mode2"), ("mode3", "./sign/dilithium/mode3"), ("mode5", "./sign/dilithium/mode5")]
 SPEC = {
     "bins": [
-        {"name": "c04", "pkg": "./zz_verif/c04", "run": "^TestC04", "configs": _CFG, "quick_configs": ["default", "noavx2"],
+        {"name": "c04", "pkg": "./zz_verif/c04", "run": "^TestC04(Transcript|Verdict)$", "configs": _CFG, "quick_configs": ["default", "noavx2"],
          "shards": {"quick": 2, "thorough": 16}},
+        {"name": "c04-rare", "pkg": "./zz_verif/c04", "run": "^TestC04RareBranches$", "shards": {"quick": 6, "thorough": 16}},
         {"name": "c04-common", "pkg": "./sign/internal/dilithium", "run": "^TestC04", "whitebox": True, "configs": _CFG,
          "quick_configs": ["default", "noavx2"], "shards": {"quick": 1, "thorough": 16}},
     ] + [
